@@ -15,6 +15,7 @@ SPECS["C07"] = {
                   FAT + "FileStream._read", FAT + "FileStream.read"],
     "bounded": [("contracts.util_fat", FAT + "FileAllocationTable.get_path"),
                 ("contracts.util_fat", FAT + "add_to_sector_links"),
+                ("contracts.util_stream", FAT + "FileStream._read"), ("contracts.util_stream", FAT + "FileStream.read"),
                 ("contracts.decoders", "bounded:akai_sat_decode"),
                 ("contracts.decoders", "bounded:roland_fat_decode")],
     "trusted_base": ["pyvc VC generator and its built-in models", "z3 5.1.0 / cvc5 1.0.3"],
@@ -72,9 +73,12 @@ SPECS["C03"] = {
     "level_note": "trusted: pyvc engine, z3; ROF contract of the bin file; str.lower as an uninterpreted function; the filter comprehension axioms; composition window -> transcoder -> data chunk is on paper (GreedyRange build writes the yielded blocks in order: assumed)",
     "contracts": ["smpl_extract.cuesheet:CueSheetIndex.get_total_audio_frames",
                   "smpl_extract.cdda.image:CompactDiskAudioImageAdapter.from_bin_cue",
-                  "smpl_extract.util.stream:StreamOffset.read", "smpl_extract.util.stream:StreamOffset.seek"],
+                  "smpl_extract.util.stream:StreamOffset.read", "smpl_extract.util.stream:StreamOffset.seek",
+                  "smpl_extract.transcoder:resize_buffer", "smpl_extract.transcoder:PassthroughTranscoder.__next__",
+                  "lemma:passthrough_concatenation[frame=4]", "smpl_extract.transcoder:make_transcoder[2]"],
     "bounded": [("contracts.cdda", "smpl_extract.cdda.image:CompactDiskAudioImageAdapter.from_bin_cue"),
-                ("contracts.cdda", "smpl_extract.cuesheet:CueSheetIndex.get_total_audio_frames")],
+                ("contracts.cdda", "smpl_extract.cuesheet:CueSheetIndex.get_total_audio_frames"),
+                ("contracts.e2e_names", "e2e:cdda_names")],
     "trusted_base": ["pyvc VC generator and its built-in models", "z3 5.1.0 / cvc5 1.0.3"],
     "assumptions": [],
 }
@@ -255,4 +259,47 @@ SPECS["C19"] = {
     "trusted_base": ["pyvc VC generator", "z3 5.1.0 / cvc5 1.0.3"],
     "not_covered": ["iir.pyx kernels (_c_process, _c_chickensys_process)", "_c_chicken_sys_convolve_valid, _c_bound_and_fix (cdef)", "filter presets' coefficients"],
     "assumptions": ["induction over the number of blocks from the two-block lemma (paper)"],
+}
+
+
+SPECS["C04"] = {
+    "level": "proof",
+    "level_text": "proved: the data chunk is a whole number of frames - every pass-through block is (resize_buffer: len = f*(len//f); PassthroughTranscoder.__next__), and the concatenation of all blocks is exactly f*(L//f) bytes (drain lemma for frame sizes 1,2,4,6,8); the pass-through block size is a multiple of the frame size for every stream shape (make_transcoder). BOUNDED end-to-end: every file reported by export over sweeps of the AKAI root-key / semitone / cents bytes, loop-table corner values, random headers, mono and stereo is parsed by an INDEPENDENT strict RIFF parser: RIFF size = length-8, fmt(16, PCM)/optional smpl/data in that order with sizes adding up, block align, byte rate, 16 bits, whole frames, smpl size = 36+24*loops; the same parser judges every file in the C01/C02/names/CDDA monitors",
+    "level_note": "trusted: pyvc engine, z3; the symbolic BUILD of RiffStruct from the live construct declaration (Prefixed/Rebuild/GreedyRange) is not mechanised - covered by the independent parser on real outputs only; PipelineTranscoder frame alignment through the bounded C12 stand-in",
+    "contracts": ["smpl_extract.transcoder:resize_buffer", "smpl_extract.transcoder:PassthroughTranscoder.__next__"] +
+                 [f"lemma:passthrough_concatenation[frame={f}]" for f in (1, 2, 4, 6, 8)] + _tr_shapes("make_transcoder")[:3],
+    "bounded": [("contracts.e2e_more", "e2e:C04")],
+    "trusted_base": ["pyvc VC generator", "z3 5.1.0 / cvc5 1.0.3", "independent RIFF parser /verif/bounded/wavparse.py"],
+    "not_covered": ["RiffStruct / WavFormatChunkStruct / WavSampleChunkStruct as symbolic build obligations"],
+    "assumptions": [],
+}
+
+
+_CUE = "smpl_extract.cuesheet:"
+SPECS["C17"] = {
+    "level": "proof",
+    "level_text": "proved (lists of strings, str.strip as an idempotent uninterpreted function, regex match truth = membership in the pattern mechanically translated from the compiled pattern object): get_nonempty_entry returns the first non-blank line stripped, skips only blank lines, keeps the rest in order (full functional contract) - this is what makes blank lines and surrounding blanks invisible to every parser above it; the three parsers always make progress and terminate; int() of a (\\d+) capture cannot fail. BOUNDED on the real parser: 3 canonical sheets x all 2048 combinations of the statement's cosmetic changes (+ an unknown line at a random admissible position) parse to the canonical meaning; text without a FILE line is rejected, non-ASCII text is not text, an all-audio sheet gives a CDDA image. The abstraction lemma 'each parser is a function of the classified blank-free line sequence' is NOT mechanised (DESIGN C17)",
+    "level_note": "trusted: pyvc engine, z3 string/regex theory, the regex translation (re._parser), str.strip model; capture groups are over-approximated by their group language",
+    "contracts": [_CUE + "get_nonempty_entry", _CUE + "CueSheetTrackAdapter.parse", _CUE + "CueSheetFileAdapter.parse", _CUE + "parse_cue_sheet"],
+    "bounded": [("contracts.cuesheet", "bounded:cue_cosmetics"), ("contracts.cuesheet", "bounded:cue_or_not")],
+    "trusted_base": ["pyvc VC generator", "z3 5.1.0 / cvc5 1.0.3"],
+    "not_covered": ["abstraction lemma over the classified line sequence; push-back alpha-idempotence as a VC"],
+    "assumptions": [],
+}
+
+
+SPECS["C13"] = {
+    "level": "proof",
+    "level_text": "termination obligations (a strictly decreasing, bounded-below measure, or a lexicographic one with growth of the visited flags) are discharged for the loops of the ls/export path that are repo code over repo data: chain resolution, link installation, BOTH raw-table decoders for tables of any length, the multi-sector read loop (3 view classes), readall (every view class), the four cue-sheet loops, the CDDA track loop, the partition scan loop (over an assumed contract for one construct parse: a successful parse consumes >= 8192 bytes). None of these proofs has a well-formedness precondition on the DATA, i.e. they cover arbitrary bytes. Each measure also bounds the iteration count by the table / list / file size. BOUNDED: ls at several levels and export under a CPU alarm and an address-space limit on random files and on AKAI / Roland / cue inputs with targeted and random corruption",
+    "level_note": "trusted: pyvc engine, z3; loops inside construct / numpy / re (each consumes input or counts to a parsed 16-bit value) are not analysed; CPU seconds and bytes are not modelled (only iteration bounds) - list.pop(0) makes cue parsing quadratic in the number of lines, which this check does not judge; not under contract: parse_path's token loop (iterator over a finite list), sanitize_names_general's counter loop (guarded by an explicit bound), Element.export_path (finite parent chain), the two tree recursions",
+    "contracts": [FAT + "FileAllocationTable.get_path", FAT + "add_to_sector_links",
+                  "smpl_extract.akai.sat:SegmentAllocationTableAdapter._decode", "smpl_extract.roland.s7xx.fat:FatAreaAdapter._decode"] +
+                 _SECTOR_READ + _view_keys(["readall"]) +
+                 [_CUE + "get_nonempty_entry", _CUE + "CueSheetTrackAdapter.parse", _CUE + "CueSheetFileAdapter.parse", _CUE + "parse_cue_sheet",
+                  "smpl_extract.cdda.image:CompactDiskAudioImageAdapter.from_bin_cue",
+                  "smpl_extract.akai.image:AkaiImageParser._load_partitions"],
+    "bounded": [("contracts.e2e_more", "e2e:C13")],
+    "trusted_base": ["pyvc VC generator", "z3 5.1.0 / cvc5 1.0.3"],
+    "not_covered": ["parse_path, sanitize_names_general, export_path loops; recursion of Traversable.export_samples / InfoTree.build_inner; loops inside libraries"],
+    "assumptions": ["construct:PartitionParser.parse_stream assumed contract"],
 }
